@@ -353,7 +353,7 @@ func (p7 *PKCS7) Decrypt(cert *Certificate, pk crypto.PrivateKey) ([]byte, error
 	if recipient.EncryptedKey == nil {
 		return nil, errors.New("pkcs7: no enveloped recipient for provided certificate")
 	}
-	if priv := pk.(*rsa.PrivateKey); priv != nil {
+	if priv, ok := pk.(*rsa.PrivateKey); ok && priv != nil {
 		var contentKey []byte
 		contentKey, err := rsa.DecryptPKCS1v15(rand.Reader, priv, recipient.EncryptedKey)
 		if err != nil {
@@ -376,7 +376,7 @@ func (p7 *PKCS7) DecryptSM2(cert *Certificate, pk crypto.PrivateKey, mode int) (
 		return nil, errors.New("pkcs7: no enveloped recipient for provided certificate")
 	}
 
-	if priv := pk.(*sm2.PrivateKey); priv != nil {
+	if priv, ok := pk.(*sm2.PrivateKey); ok && priv != nil {
 		var contentKey []byte
 		contentKey, err := sm2.Decrypt(priv, recipient.EncryptedKey, mode)
 		if err != nil {
@@ -997,7 +997,7 @@ func marshalEncryptedContent(content []byte) asn1.RawValue {
 }
 
 func encryptKey(key []byte, recipient *Certificate) ([]byte, error) {
-	if pub := recipient.PublicKey.(*rsa.PublicKey); pub != nil {
+	if pub, ok := recipient.PublicKey.(*rsa.PublicKey); ok && pub != nil {
 		return rsa.EncryptPKCS1v15(rand.Reader, pub, key)
 	}
 	return nil, ErrPKCS7UnsupportedAlgorithm
@@ -1070,7 +1070,7 @@ func PKCS7EncryptSM2(content []byte, recipients []*Certificate, mode int) ([]byt
 
 
 func encryptKeySM2(key []byte, recipient *Certificate, mode int) ([]byte, error) {
-	if pub := recipient.PublicKey.(*ecdsa.PublicKey); pub != nil {
+	if pub, ok := recipient.PublicKey.(*ecdsa.PublicKey); ok && pub != nil {
 		pubkey := &sm2.PublicKey{}
 		pubkey.Curve = pub.Curve
 		pubkey.Y = pub.Y
